@@ -480,7 +480,8 @@ func Gen(r *core.Rng, o GenOpts) (*History, gen.Set) {
 		}
 	}
 	names := append([]string{}, set.Members...)
-	if r.Intn(4) == 0 {
+	if r.Intn(2) == 0 {
+		// helpers are executed directly as well (many end in a non-text context)
 		names = append(names, set.Helpers...)
 	}
 	live := []int{0} // variables holding handles of the main set
